@@ -72,6 +72,7 @@ func runOncePaths(mode string, dag []fetch) (out string) {
 			out = common.L("panic", common.QS(strings.SplitN(strings.TrimSpace(strings.ReplaceAll(fmtAny(p), "\n", " ")), " goroutine", 2)[0]))
 		}
 	}()
+	announce(mode)
 	// an (empty) response object and Info, as every real plan has: mergeFields and collectAuthorizationCoordinates run
 	response := &resolve.GraphQLResponse{RawFetches: itemsOf(dag, true), Info: &resolve.GraphQLResponseInfo{}, Data: &resolve.Object{}}
 	processorPaths(mode).Process(&plan.SynchronousResponsePlan{Response: response})
